@@ -16,7 +16,7 @@ pub fn steps_duration(w: &[Step]) -> u64 {
 pub fn work_of_case(case: &Case, id: u32) -> Option<&Vec<Step>> {
     let (c, o) = ((id / 1000) as usize, (id % 1000) as usize);
     match case.clients.get(c)?.get(o)? {
-        ClientOp::Send { work, .. } | ClientOp::Call { work, .. } | ClientOp::CallDrop { work, .. } => Some(work),
+        ClientOp::Send { work, .. } | ClientOp::Call { work, .. } | ClientOp::CallDrop { work, .. } | ClientOp::SendRepoll { work, .. } => Some(work),
         _ => None,
     }
 }
@@ -35,6 +35,8 @@ pub struct OpRec {
     pub end_time: u64,
     pub res: Option<OpRes>,
     pub polls: u32,
+    /// the operation's future returned Pending at least once (known even if it never resolved)
+    pub was_pending: bool,
 }
 
 impl OpRec {
@@ -144,6 +146,7 @@ impl<'a> View<'a> {
                         end_time: 0,
                         res: None,
                         polls: 0,
+                        was_pending: false,
                     });
                 }
                 EvKind::OpEnd { client, op, res, polls } => {
@@ -153,6 +156,11 @@ impl<'a> View<'a> {
                         o.end_time = e.time;
                         o.res = Some(res.clone());
                         o.polls = *polls;
+                    }
+                }
+                EvKind::OpFirstPending { client, op } => {
+                    if let Some(i) = op_idx.get(&(*client, *op)) {
+                        ops[*i].was_pending = true;
                     }
                 }
                 EvKind::HEnter { actor, value, inc, inv, msg } => {
